@@ -158,7 +158,7 @@ def run(ctx):
         acc = [r for k, t, r in records if k != "chars" and r["obs"] == "tree"]
         for r in rnd.sample(acc, min(len(acc), 300 if quick else 3000)):
             f.write(json.dumps(dict(s=[], o="tree", code=0, cursor=0, quoted=[], tree=r["tree"])) + "\n"); nlines += 1
-    common.corrupt_trace(tf, ["cursor", "code"])
+    common.corrupt_trace(tf, ["cursor"], to=-3)     # (cursor + 1 is still inside the text: legitimately accepted)
     ttxt, tinfo = common.tlc(ctx, "Trace_ZnFront", "Trace_ZnFront.cfg", workers=1, timeout=1500, files=[(tf, "trace.ndjson")], allow_violation=True, heap="8g")
     if tinfo["violated"]:
         if tinfo.get("postcondition_failed"):
